@@ -4,7 +4,7 @@ import stat
 import time
 import typing
 
-from pygopherd import gopherentry, handlers
+from pygopherd import GopherExceptions, gopherentry, handlers
 from pygopherd.handlers.base import BaseHandler
 
 
@@ -49,14 +49,20 @@ class DirHandler(BaseHandler):
         for file in self.files:
             # We look up the appropriate handler for this object, and ask
             # it to give us an entry object.
-            handler = handlers.HandlerMultiplexer.getHandler(
-                self.selectorbase + "/" + file,
-                self.searchrequest,
-                self.protocol,
-                self.config,
-                vfs=self.vfs,
-            )
-            fileentry = handler.getentry()
+            try:
+                handler = handlers.HandlerMultiplexer.getHandler(
+                    self.selectorbase + "/" + file,
+                    self.searchrequest,
+                    self.protocol,
+                    self.config,
+                    vfs=self.vfs,
+                )
+                fileentry = handler.getentry()
+            except (GopherExceptions.FileNotFound, IOError):
+                # An entry that can not be served (dangling symlink, FIFO,
+                # vanished file, name rejected by the security check) is
+                # left out; it must not take the whole directory down.
+                continue
             self.prep_entriesappend(file, handler, fileentry)
 
     def prep_entriesappend(
